@@ -411,11 +411,19 @@ class ExprMixin:
                 return True
             if l is None or r is None:
                 return False
-            raise Unsupported('is between optionals')
+            if isinstance(l, VOpt) and not isinstance(r, VOpt):
+                return self.land(self.lnot(l.none), self.identical(l.val, r))
+            if isinstance(r, VOpt) and not isinstance(l, VOpt):
+                return self.land(self.lnot(r.none), self.identical(l, r.val))
+            return self.lor(self.land(l.none, r.none), self.land(self.lnot(l.none), self.lnot(r.none), self.identical(l.val, r.val)))
         if isinstance(l, (VStruct, VBox)) or isinstance(r, (VStruct, VBox)):
             return l is r
         if isinstance(l, VObj) and isinstance(r, VObj):
             return l.term == r.term
+        if isinstance(l, VObj) and z3.is_expr(r) and r.sort() == l.term.sort():
+            return l.term == r
+        if isinstance(r, VObj) and z3.is_expr(l) and l.sort() == r.term.sort():
+            return l == r.term
         if not is_sym(l) and not is_sym(r):
             return l is r
         # enum constants / bools: identity == equality
@@ -623,6 +631,8 @@ class ExprMixin:
             return BoundMethod(base, attr)
         if isinstance(base, VObj):
             return self.obj_attr(base, attr, node)
+        if type(base).__name__ == 'VFile':
+            return BoundMethod(base, attr)
         if type(base).__name__ == 'SuperProxy':
             for c in base.mro:
                 if attr in c.__dict__:
@@ -666,6 +676,9 @@ class ExprMixin:
     def ev_ListComp(self, e, fr):
         if len(e.generators) == 1:
             it = self.unwrap(self.ev(e.generators[0].iter, fr), e)
+            if isinstance(it, VBox) and it.kind == 'set' and it.term is not None:
+                sv = self.symbolic_iter(it)
+                return self.sym_comprehension(e, fr, VBox('list', sv.seqs[0], it.esort))
             if self.symbolic_iter(it) is not None and not self.has_concrete_len(it):
                 return self.sym_comprehension(e, fr, it)
         return self.new_list(self.comp_items(e, fr), fr)
@@ -693,7 +706,26 @@ class ExprMixin:
         if not z3.is_expr(val):
             val = self.zs.lift(val, STR if isinstance(val, str) else z3.IntSort())
         p = self.path
-        R = p.fresh(z3.SeqSort(val.sort()), 'comp')
+        # the list is a deterministic function of the iterated sequence (and of the free variables of the element
+        # expression): the same comprehension text over the same sequence denotes the same term in code and contract
+        import hashlib
+        free = sorted({n_.id for n_ in ast.walk(e.elt) if isinstance(n_, ast.Name)} | {n_.id for c_ in g.ifs for n_ in ast.walk(c_) if isinstance(n_, ast.Name)})
+        tnames = {n_.id for n_ in ast.walk(g.target) if isinstance(n_, ast.Name)}
+        fvals = []
+        for nm in free:
+            if nm in tnames:
+                continue
+            try:
+                fv = self.lookup(nm, fr)
+            except Unsupported:
+                continue
+            if z3.is_expr(fv):
+                fvals.append(fv)
+        key = hashlib.sha1((ast.dump(e.elt) + '|' + '|'.join(ast.dump(c_) for c_ in g.ifs) + '|' + ast.dump(g.target)).encode()).hexdigest()[:10]
+        cf = self.ufun(f'comp_{key}', t.sort(), *[v_.sort() for v_ in fvals], z3.SeqSort(val.sort()))
+        R = cf(t, *fvals)
+        ident = isinstance(e.elt, ast.Name) or (isinstance(e.elt, ast.Call) and isinstance(e.elt.func, ast.Name) and e.elt.func.id == 'str' and t.sort().basis() == z3.StringSort())
+        self.comp_info[R.get_id()] = (ident and not g.ifs, t)
         rng = z3.And(j >= 0, j < z3.Length(t))
         if not g.ifs:
             p.assume(z3.Length(R) == z3.Length(t), heavy=True)
@@ -718,6 +750,8 @@ class ExprMixin:
         return PyList(self.comp_items(e, fr), 'gen')
 
     def has_concrete_len(self, it):
+        if isinstance(it, VBox) and it.kind == 'set':
+            return it.term is None
         return self.seq_concrete_items(simp(self.seqterm(it))) is not None
 
     def comp_items_over(self, e, fr, it):
@@ -786,6 +820,8 @@ class ExprMixin:
 
     def concrete_iter(self, it, node=None):
         it = self.unwrap(it, node)
+        if isinstance(it, VBox) and it.kind == 'set' and it.term is None:
+            return []
         if isinstance(it, PyList):
             return list(it.items)
         if isinstance(it, PyDict):
